@@ -136,4 +136,3 @@ func toDocs(a bson.A) []bson.D {
 }
 
 func toFilters(a bson.A) []bson.D { return toDocs(a) }
-
